@@ -39,5 +39,9 @@ theorem maxPurgeBytes : Facts.maxPurgeBytes = Spec.maxPurgeBytes := by rfl
 theorem kbDivisor : Facts.kbDivisor = Spec.kbDivisor := by rfl
 theorem limiterArith : Facts.limiterArith = Spec.limiterArith := by rfl
 theorem atimeFlushShape : Facts.atimeFlushShape = Spec.atimeFlushShape := by rfl
+theorem limiterOpSwitch : Facts.limiterOpSwitch = Spec.limiterOpSwitch := by rfl
+theorem closeFinisherShape : Facts.closeFinisherShape = Spec.closeFinisherShape := by rfl
+theorem finishAndNotifyShape : Facts.finishAndNotifyShape = Spec.finishAndNotifyShape := by rfl
+theorem setAccessTimeShape : Facts.setAccessTimeShape = Spec.setAccessTimeShape := by rfl
 
 end Pins
